@@ -29,7 +29,9 @@ var genStructs = []string{"pathExpression", "Route", "curlyRoute", "WebService",
 //
 //	resp.AddHeader(k, v)            resp := push resp (k, v)
 //	chain.ProcessFilter(req, resp)  chain := push chain resp     (what had been added when control was passed on)
-var effectTypes = map[string]string{"*Response": "RespLog", "*FilterChain": "ChainLog"}
+//	mux.HandleFunc(p, c.dispatch)   mux := (← X.mux_HandleFunc mux p)   (uninterpreted and partial: net/http panics on a pattern
+//	                                                                        that is registered already; the handler must be c.dispatch)
+var effectTypes = map[string]string{"*Response": "RespLog", "*FilterChain": "ChainLog", "*http.ServeMux": "MuxLog"}
 
 // mutates: the pointer parameters (receiver included) a function changes, by name, in the order in
 // which their final values are appended to the result.  The translator checks the list: an effect, a field
@@ -43,6 +45,8 @@ var mutates = map[string][]string{
 	"CrossOriginResourceSharing.checkAndSetExposeHeaders":    {"resp"},
 	"CrossOriginResourceSharing.checkAndSetAllowCredentials": {"resp"},
 	"Container.OPTIONSFilter":                                {"resp", "chain"},
+	"Container.addHandler":                                   {"serveMux"},
+	"WebService.RemoveRoute":                                 {"w"},
 }
 var isGenStruct = map[string]bool{}
 
@@ -165,7 +169,8 @@ func genStructDecls() string {
 			if lt == "" || !usedFields[st][f] {
 				continue
 			}
-			fmt.Fprintf(&b, "  %s : %s\n", mangle(f), lt)
+			// every field has a default: a structure literal written before a field was used still elaborates
+			fmt.Fprintf(&b, "  %s : %s := default\n", mangle(f), lt)
 			n++
 		}
 		if n == 0 {
@@ -833,6 +838,14 @@ func (t *tr) effectStmt(ind int, c *ast.CallExpr) bool {
 				return true
 			}
 			fail("method %s of *Response", sel.Sel.Name)
+		case "*http.ServeMux":
+			if sel.Sel.Name == "HandleFunc" && len(c.Args) == 2 && src(c.Args[1]) == t.recv+".dispatch" {
+				p, _ := t.expr(c.Args[0])
+				t.changed(id.Name)
+				t.line(ind, "%s := (← %s %s %s)", t.lname(id.Name), ext("mux.HandleFunc", "MuxLog → Str → Option MuxLog"), t.lname(id.Name), p)
+				return true
+			}
+			fail("call %s on a *http.ServeMux", src(c))
 		case "*FilterChain":
 			if sel.Sel.Name == "ProcessFilter" && len(c.Args) == 2 {
 				r, _ := t.expr(c.Args[1])
